@@ -123,3 +123,19 @@ func (verifStat) Mode() os.FileMode  { return 0 }
 func (verifStat) ModTime() time.Time { return time.Time{} }
 func (verifStat) IsDir() bool        { return false }
 func (v verifStat) Sys() any         { return &syscall.Stat_t{Ino: v.ino} }
+
+// VerifForgetAll empties the process-global registries of the package (offsets
+// files in use, /info and /reset handlers by pipeline name). A worker process of
+// the simulation starts thousands of plugin instances; in a real process these
+// maps hold one entry per configured pipeline for the life of the process.
+func VerifForgetAll() {
+	for k := range offsetFiles {
+		delete(offsetFiles, k)
+	}
+	for k := range InfoRegistryInstance.plugins {
+		delete(InfoRegistryInstance.plugins, k)
+	}
+	for k := range ResetterRegistryInstance.pipelineToResetter {
+		delete(ResetterRegistryInstance.pipelineToResetter, k)
+	}
+}
